@@ -121,6 +121,7 @@ type c17sim struct {
 	src    *c17src
 	desc   func() string
 	buf    []byte
+	slices [][]uint16 // results of ReadUint16Slice the caller has kept
 }
 
 func (s *c17sim) fail(w string, format string, a ...any) {
@@ -244,6 +245,28 @@ func (s *c17sim) step(o c17op) bool {
 			if int64(len(v)) != cnt {
 				s.fail("wrong-value:ReadUint16Slice", "ReadUint16Slice at %d: %d values, want %d", s.cur, len(v), cnt)
 				return false
+			}
+			// the lists returned earlier are the caller's: it appends to
+			// them (here: fills whatever spare capacity they came with),
+			// which must not reach into the list returned now
+			for _, old := range s.slices {
+				ext := old[:cap(old)]
+				for i := len(old); i < len(ext); i++ {
+					ext[i] = 0xAAAA
+				}
+			}
+			for i, x := range v {
+				q := s.cur + 2 + 2*int64(i)
+				if want := uint16(s.data[q])<<8 | uint16(s.data[q+1]); x != want {
+					s.fail("uint16-lists-share-memory", "ReadUint16Slice at %d: value %d of the list just returned reads %#x after the caller appended to a list returned earlier (the input has %#x)", s.cur, i, x, want)
+					return false
+				}
+			}
+			if len(s.slices) < 8 {
+				s.slices = append(s.slices, v)
+				if len(s.slices) >= 2 {
+					k.Class("uint16-lists:several-kept")
+				}
 			}
 			for i, x := range v {
 				q := s.cur + 2 + 2*int64(i)
@@ -571,5 +594,5 @@ func runC17(c *mon.Ctx) {
 		}
 	})
 	c.Require("refill", "fail:Read", "fail:ReadBytes", "fail:ReadUint16Slice", "fail:ReadUint32", "ok:Read>buffer", "ok:ReadUint16Slice>buffer",
-		"source-mode-0", "source-mode-1", "source-mode-2", "source-mode-3", "source-mode-5", "seek@beyond", "seek@eof")
+		"source-mode-0", "source-mode-1", "source-mode-2", "source-mode-3", "source-mode-5", "seek@beyond", "seek@eof", "uint16-lists:several-kept")
 }
